@@ -46,6 +46,7 @@ GUIDANCE = {
     3: "\nADDITIONAL GUIDANCE FOR THIS ROUND (the third): two rounds of changes have been tried already - obvious single-line edits at the most visible spot, and refactorings inside the file that implements the behaviour (shared helpers, caches, value/dtype/mask special cases). This time put the change somewhere a reviewer of the property would NOT look first: the shared plumbing (mpilot/commands.py, mpilot/program.py, mpilot/params.py, mpilot/arguments.py, mpilot/utils.py, mpilot/exceptions.py, mpilot/libraries/eems/mixins.py, mpilot/cli/mpilot.py), a base class or mixin, an exception class, argument/line-number handling, the way results are stored or handed over, module-level state, Python-version or numpy-version style compatibility shims, or an interaction with ANOTHER feature of the package (EEMS 2.0 conversion, serialisation with to_string, the command line tool, NetCDF vs CSV libraries, metadata arguments). The change must still break THIS property in an observable way. Keep every change small and plausible.\n",
     4: "\nADDITIONAL GUIDANCE FOR THIS ROUND (the fourth): three rounds have been tried already - obvious single-line edits, refactorings inside the implementing file, and edits to the shared plumbing. This time start from the property's QUANTIFIER ('for every ...') and aim at a corner of it that a checker built from the property text would plausibly under-sample, for example: extreme sizes (empty lists, a single element, hundreds of commands, inputs, list items or nesting levels, very long lines or names); unusual but legal element types and array forms (float32/float16, int8, unsigned, boolean arrays, 0-d or rank-4 arrays, non-contiguous or read-only arrays, arrays whose mask is numpy's scalar nomask, arrays sharing memory); unusual but legal text (non-ASCII names, CRLF or lone CR, tabs, a BOM, trailing blanks, no final newline); unusual orders of API use (results read before run(), run() twice, commands added or replaced after a run, one Program reused, several Programs alive at once, subclassed commands, copy.deepcopy or pickle of a program); or the caller's environment (a different current directory, relative and symlinked paths, read-only folders, warnings turned into errors, numpy.seterr set by the caller, a low recursion limit, PYTHONHASHSEED). The change ITSELF should read like an innocent optimisation (vectorising, caching, in-place arithmetic, views instead of copies, early exits for 'trivial' cases), a modernisation (newer numpy API, dropping six/Python 2 shims, pathlib, f-strings, dict/set comprehensions replacing ordered structures), or a robustness improvement (extra validation, normalising input, friendlier errors). It must still break THIS property in an observable way, and only in such a corner. Keep every change small and plausible.\n",
     5: "\nADDITIONAL GUIDANCE FOR THIS ROUND (the fifth): four rounds have been tried already - obvious single-line edits, refactorings inside the implementing file, edits to the shared plumbing, and changes that only show in a corner of the quantifier (extreme sizes, unusual element types, unusual text, unusual API orders, the caller's environment). This time make the failure depend on a CONJUNCTION or on the DATA: (a) a combination of two or three ordinary circumstances that are each common but rarely occur together (a particular command AND a particular parameter value AND a particular placement of missing cells; the second use of an object AND a particular type; a default parameter left out AND a particular data range); (b) a data-dependent branch (all values equal, already sorted or reverse-sorted input, exact ties, values exactly on a threshold / control point / category code, negative zero, a field without any missing cell next to one that has some, empty intersections); (c) scale or count thresholds (more than some thousands of cells, more than N commands or list items, the n-th call in a process, the first call after an exception was raised and caught); or (d) an interaction between two commands of a model (a result consumed by two particular kinds of consumer, a writer and a reader of the same file in one model, a fuzzy and a non-fuzzy consumer of related fields). The patch itself should read like a plausible optimisation, special-case fast path or bug fix - a reviewer should have to think to see the problem. It must still break THIS property in an observable way. Keep every change small.\n",
+    6: "\nADDITIONAL GUIDANCE FOR THIS ROUND (the sixth): five rounds have been tried already - obvious single-line edits, refactorings inside the implementing file, edits to the shared plumbing, corners of the quantifier (extreme sizes, unusual element types / text / API orders / environments), and failures that depend on a conjunction of circumstances or on a data-dependent branch. This time choose one of these routes, a different one for each of your three changes: (a) TWO COOPERATING EDITS in two different functions or files, each of which is harmless (behaviour-preserving) on its own, which only together break the property - e.g. one site starts to rely on an invariant that the other site stops maintaining; (b) a failure that only shows AFTER A FAULT: an exception raised in the middle of a run, a load, a write or a parameter clean-up (a missing file, an invalid value, a failing plug-in command, KeyboardInterrupt-style interruption) after which the SAME objects (program, commands, parser, parameter objects, files on disk) are used again, or partially written output / state left behind; (c) an EXACTNESS violation: the property makes an exact claim (a closed bound such as [-1, 1], exact equality of results under reordering, an exact round trip, exact idempotence, 'exactly once', the exact line) and your change violates it only by a hair or only sometimes - a result a few units in the last place outside the bound or different from the reference, a value off by one ulp after a round trip, a float where an int was promised, an off-by-one in a count or a line for one particular construct; (d) a LONG SCENARIO: at least four steps through the public API or command files (load, run, edit, serialise, reload, rerun, write, read back ...) where every shorter prefix still behaves; (e) PROCESS-LEVEL circumstances: running under `python -O` (asserts stripped) or with PYTHONWARNINGS=error, a different locale / LANG / LC_NUMERIC, a different umask or a read-only directory, the package imported under two names or reloaded with importlib.reload, two interpreters / threads using the same files. The patch should read like a plausible clean-up, optimisation or bug fix; a reviewer should have to think to see the problem. It must still break THIS property in an observable way. Keep every change small.\n",
 }
 
 
